@@ -566,4 +566,3 @@ package protocol
 //@   ghostset-at-entry poolReset = false
 //@   ghostset after Cookie.Reset: poolReset = (arg0 == c)
 //@   assert before Put: poolReset
-
